@@ -32,6 +32,7 @@ ASSUMPTIONS = [
     'the merged-vs-identical branch of _load_data is exercised through the real loader (configuration kind=load) '
     'on a generated dataset with symbolic assignments',
     'forms added after seeding rounds: direct get_cluster_mean_waveforms(c) in unwhitened units after the whitened pass (non-identity whitening); uint32 channel positions',
+    'round 7: one configuration with 260 templates, spike_templates stored as uint16, spikes on templates {0, 257, 258} and clusters {0, 258, 259, 260}; obligations restricted to the ids in play; loop bound 400',
 ]
 STUBS = []
 OUTSIDE = ['float rounding of the weighted mean', 'more spikes/templates than the bound']
